@@ -109,5 +109,9 @@ def run(tier, seed):
     tasks = []
     for cfg in cfgs:
         run_config(rep, cfg, tier, tasks)
+    from checks import c01f
+    fcfgs = ["serial64", "serial32"] if tier == "quick" else cfgs
+    build.ir_many([dict(config=c, flavour="O0") for c in fcfgs])
+    for cfg in fcfgs: tasks += c01f.harnesses(rep, cfg, build.ir(cfg, "O0"))
     run_tasks(tasks, rep)
     return rep
